@@ -225,6 +225,7 @@ func runC06(c *ctx) {
 	}
 	c06NilRow(c)
 	c06ShutdownFlush(c)
+	c06DeadlineMidFlush(c)
 	c06FSDirectory(c, "C06")
 	c.r.Exhaustive = true
 	c.r.Note("every single fault position of each flush shape enumerated; pairs: %s", map[bool]string{true: "all", false: "12 sampled per shape"}[c.tier == "thorough"])
@@ -310,6 +311,66 @@ func c06ShutdownFlush(c *ctx) {
 			if gotV, qerr := visibleIDs(freshEngine(env)); fmt.Sprint(gotV) != fmt.Sprint(want) {
 				c.r.Add(Finding{Kind: "violation", Check: "ack-vs-visibility", Detail: fmt.Sprintf("drain flush during Stop: acknowledgement nil=%v but a fresh engine over the same stores sees ids %v (want %v, query err %v)", ackA == nil, gotV, want, qerr), Replay: replay})
 			}
+		}
+	}
+}
+
+// c06DeadlineMidFlush: Stop's deadline expires while a flush is inside a store call (parked by the store at
+// CreateFile / a Write / Close / MetaStore.Update); the store call then returns and the flush runs on with a
+// context that is already done, over stores that ignore the context (the shipped MemoryMetaStore and a local
+// data store do) and that collect tombstoned files lazily. Whatever verdict the batch then receives must be true:
+// nil - the rows are visible to a fresh engine exactly once; an error - none of them is.
+func c06DeadlineMidFlush(c *ctx) {
+	for i, parkAt := range []string{"create", "write", "close", "update", "create", "update"} {
+		cfg := bs.DefaultBloomSearchEngineConfig()
+		cfg.MaxBufferedTime = time.Hour
+		cfg.RowDataCompression = bs.CompressionNone
+		env := NewEnv(cfg)
+		env.Data.DeferTombstone = i >= 2
+		if err := env.IngestWait([]map[string]any{{"_id": 1}, {"_id": 2}}); err != nil {
+			fatal("baseline ingest: %v", err)
+		}
+		g := newGate(func(op, file string) bool { return op == parkAt })
+		env.Data.Gate = g.hook
+		done := make(chan error, 1)
+		env.Eng.IngestRows(context.Background(), []map[string]any{{"_id": 11}, {"_id": 12}}, done)
+		flushed := make(chan error, 1)
+		go func() { flushed <- env.Eng.Flush(context.Background()) }()
+		parked := g.waitBlocked(3 * time.Second)
+		sctx, cancel := context.WithTimeout(context.Background(), 30*time.Millisecond)
+		stopErr := env.Eng.Stop(sctx)
+		cancel()
+		g.release()
+		var ack error
+		answered := true
+		select {
+		case ack = <-done:
+		case <-time.After(5 * time.Second):
+			answered = false
+		}
+		select {
+		case <-flushed:
+		case <-time.After(5 * time.Second):
+		}
+		env.Data.Gate = nil
+		replay := map[string]any{"flush_parked_at": parkAt, "parked": parked, "stop": fmt.Sprint(stopErr), "ack": fmt.Sprint(ack), "answered": answered, "lazy_gc_store": env.Data.DeferTombstone}
+		c.r.Case(parked, fmt.Sprint("deadline-mid-flush", i, parkAt))
+		c.r.Hit("flush.deadline-mid-flush." + parkAt)
+		if !answered {
+			continue // C05/C08 judge unanswered batches; here only the truth of a verdict
+		}
+		want := map[int]int{1: 1, 2: 1}
+		if ack == nil {
+			want[11], want[12] = 1, 1
+		}
+		gotV, qerr := visibleIDs(freshEngine(env))
+		if qerr != nil && ack != nil && !env.Data.DeferTombstone {
+			// an error verdict, the file removed at once, but the MetaStore still lists it: the fresh engine's query fails
+			c.r.Add(Finding{Kind: "violation", Check: "ack-vs-visibility", Detail: fmt.Sprintf("Stop's deadline expired while the flush was inside %s; the batch was then acknowledged with %q, yet a fresh engine over the same stores cannot answer a match-all query (%v): the failed flush left its file listed in the MetaStore", parkAt, fmt.Sprint(ack), qerr), Replay: replay})
+			continue
+		}
+		if fmt.Sprint(gotV) != fmt.Sprint(want) {
+			c.r.Add(Finding{Kind: "violation", Check: "ack-vs-visibility", Detail: fmt.Sprintf("Stop's deadline expired while the flush was inside %s; the batch was then acknowledged with %q, but a fresh engine over the same stores sees ids %v (want %v, query err %v)", parkAt, fmt.Sprint(ack), gotV, want, qerr), Replay: replay})
 		}
 	}
 }
